@@ -45,6 +45,11 @@ func main() {
 				aggCase(cr, s)
 				return
 			}
+			if r.Chance(1, 40) {
+				family = "string"
+				stringCase(cr, s)
+				return
+			}
 			if r.Chance(1, 60) {
 				family = "duplicate names"
 				dupNamesCase(cr, s)
